@@ -390,14 +390,15 @@ line2</a></r>`,
 				rec = strings.TrimPrefix(rec, "f.xml: ")
 			}
 			// parse the record back and compare with the selected node
-			back, err := xsel.ReadXml(strings.NewReader(rec))
+			// a record is an XML fragment (possibly a bare text node): parse it inside a wrapper element
+			back, err := xsel.ReadXml(strings.NewReader("<wrap>" + rec + "</wrap>"))
 			if err != nil {
 				problem = "record does not parse: " + rec
 				break
 			}
 			want := subtreeDesc(nodes[k])
 			var got string
-			kids := back.Children()
+			kids := back.Children()[0].Children()
 			if len(kids) == 1 {
 				got = subtreeDesc(kids[0])
 			}
